@@ -211,13 +211,49 @@ Fixpoint all_ok {R} (l : list (outcome R)) : outcome (list R) :=
   | ORet x :: r => match all_ok r with ORet xs => ORet (x :: xs) | OErr => OErr end
   end.
 Definition zrange (n : Z) : list Z := map Z.of_nat (seq 0 (Z.to_nat n)).
-(* (np.arange(max(lengths)) / float(rate), lengths) *)
+
+(* ---- binary64 (round 4).  The sample grid is the one place of this property where the code's numbers are NOT the exact
+   rationals: k / sample_rate is no binary64 number for sample rates like 3 or 9/5.  b64 q = the binary64 number nearest
+   to the rational q, ties to even (format: 53 bit significand, gradual underflow at 2^-1074; overflow not modelled).
+   Executable over Q (rint of q / ulp); ProofsGrid.b64_is_RN proves it equal to Flocq's round-to-nearest-even. *)
+Definition pow2 (e : Z) : Q :=
+  match e with
+  | Z0 => 1
+  | Zpos p => inject_Z (Z.pow_pos 2 p)
+  | Zneg p => / inject_Z (Z.pow_pos 2 p)
+  end%Q.
+(* floor (log2 q) for q > 0: log2 num - log2 den or one less *)
+Definition qlog2 (q : Q) : Z :=
+  let a := Z.log2 (Qnum q) - Z.log2 (Zpos (Qden q)) in
+  if Qle_bool (pow2 a) q then a else a - 1.
+Definition b64_exp (q : Q) : Z := Z.max (qlog2 (Qabs q) + 1 - 53) (-1074).
+Definition b64 (q : Q) : Q :=
+  if Qeq_bool q 0 then 0%Q else (inject_Z (rint (q / pow2 (b64_exp q))) * pow2 (b64_exp q))%Q.
+
+(* WHAT "at the times k / sample rate" MEANS FOR BINARY64: sample k is taken at the binary64 number nearest to the exact
+   rational k / rate (one rounding of the exact quotient; `float(Fraction(k) / rate)` in Python). *)
+Definition grid_time (rate : Q) (k : Z) : Q := b64 (inject_Z k / rate).
+
+(* what get_sample_times computes for sample k of n (since the round-4 repair): the rate is an exact fraction num / den;
+   if num < 2^53 and n * den <= 2^53 then  (float(k) * float(den)) / float(num)  [the product is exact], else (and
+   before the repair always)  float(k) / float(rate)  [float(rate) is a rounding of its own] *)
+Definition grid_guard (rate : Q) (n : Z) : bool :=
+  let r := Qred rate in
+  (0 <? Qnum r) && (Qnum r <? 2 ^ 53) && (Zpos (Qden r) * Z.max n 1 <=? 2 ^ 53).
+Definition grid_old (rate : Q) (k : Z) : Q := b64 (inject_Z k / b64 rate).
+Definition grid_impl (rate : Q) (n k : Z) : Q :=
+  let r := Qred rate in
+  if grid_guard rate n
+  then b64 (b64 (inject_Z k * inject_Z (Zpos (Qden r))) / b64 (inject_Z (Qnum r)))
+  else grid_old rate k.
+
+(* (np.arange(max(lengths)) * den / num, lengths) *)
 Definition sample_times (rate : Q) (durs : list Q) : outcome (list Q * list Z) :=
   match durs with
   | [] => OErr                                         (* assert len(waveforms) > 0 *)
   | _ => match all_ok (map (waveform_length rate) durs) with
          | OErr => OErr
-         | ORet lens => ORet (map (fun k => (inject_Z k / rate)%Q) (zrange (fold_right Z.max 0 lens)), lens)
+         | ORet lens => let n := fold_right Z.max 0 lens in ORet (map (grid_impl rate n) (zrange n), lens)
          end
   end.
 
